@@ -31,13 +31,13 @@ def dense_rpc(ctx, group_forms):
 
 
 def run(ctx):
-    mons = [l2.mon_c13, l2.mon_c02, l2.mon_c06]
+    mons = [l2.mon_c13, l2.mon_c13_groups, l2.mon_c02, l2.mon_c06]
     l2common.run_all(ctx, dense_rpc(ctx, False), mons, correspond=True)
     l2common.run_all(ctx, dense_rpc(ctx, True), mons, correspond=False)
 
 
 def replay(ctx, data):
-    l2common.replay(ctx, data, [l2.mon_c13, l2.mon_c02, l2.mon_c06])
+    l2common.replay(ctx, data, [l2.mon_c13, l2.mon_c13_groups, l2.mon_c02, l2.mon_c06])
 
 
 TECHNIQUE = "Lean 4 theorems on the RPC layer of the process/daemon model (answers vs forks/signals/states, for all states and environment answers) + correspondence with the real rpcinterface executed inside the unmodified main loop"
